@@ -1,4 +1,5 @@
 mod bincase;
+mod cross;
 mod db;
 mod dom;
 mod foreign;
@@ -57,6 +58,10 @@ fn main() {
             let stdin = std::io::stdin();
             foreign::run(&mut stdin.lock(), &mut out);
         }
+        "xml-pop" => {
+            let stdin = std::io::stdin();
+            xmlcase::run_populations(&mut stdin.lock(), &mut out);
+        }
         "xml-foreign" => {
             let stdin = std::io::stdin();
             xmlcase::run_foreign(&mut stdin.lock(), &mut out);
@@ -71,6 +76,21 @@ fn main() {
             } else {
                 xmlcase::run_random(seed, count, maxi, &mode, &mut out);
             }
+        }
+        "cross-cases" => {
+            let seed: u64 = arg(&args, "--seed", "1").parse().unwrap();
+            let count: usize = arg(&args, "--count", "50").parse().unwrap();
+            let maxi: usize = arg(&args, "--max-instances", "5").parse().unwrap();
+            let convert = arg(&args, "--convert", "0") == "1";
+            if arg(&args, "--descriptors", "0") == "1" {
+                cross::run_cross_descriptors(seed, 6, &mut out);
+            } else {
+                cross::run_cross(seed, count, maxi, convert, &mut out);
+            }
+        }
+        "mig-cases" => {
+            let stride: usize = arg(&args, "--stride", "1").parse().unwrap();
+            cross::run_migrations(stride, &mut out);
         }
         "export-db" => {
             db::export(rbx_reflection_database::get(), &mut out);
